@@ -249,6 +249,12 @@ func (c *Conn) writeFrame(ctx context.Context, fin bool, flate bool, opcode opco
 	}
 	defer c.writeFrameMu.unlock()
 
+	// No data frames and no second close frame may follow a close frame.
+	// See https://tools.ietf.org/html/rfc6455#section-5.5.1
+	if c.closeSent && opcode != opPing && opcode != opPong {
+		return 0, fmt.Errorf("failed to write frame: %w", net.ErrClosed)
+	}
+
 	select {
 	case <-c.closed:
 		return 0, net.ErrClosed
@@ -279,6 +285,10 @@ func (c *Conn) writeFrame(ctx context.Context, fin bool, flate bool, opcode opco
 			return 0, fmt.Errorf("failed to generate masking key: %w", err)
 		}
 		c.writeHeader.maskKey = binary.LittleEndian.Uint32(c.writeHeaderBuf[:])
+	}
+
+	if opcode == opClose {
+		c.closeSent = true
 	}
 
 	c.writeHeader.rsv1 = false
